@@ -42,6 +42,12 @@ Proof.
   pose proof (Z_div_mod_eq_full n (Z.pos d)). lia.
 Qed.
 
+Lemma existsb_false_Forall {A} (p : A -> bool) l : existsb p l = false -> Forall (fun x => p x = false) l.
+Proof.
+  induction l as [|a l IH]; intros H; [constructor|]. cbn [existsb] in H.
+  apply orb_false_iff in H. destruct H. constructor; auto.
+Qed.
+
 Lemma removelast_Forall {A} (P : A -> Prop) l : Forall P l -> Forall P (removelast l).
 Proof.
   induction l as [|a l IH]; intros H; [constructor|].
@@ -65,8 +71,21 @@ Lemma lut_data_ok l d : lut_data l = Ok d ->
 Proof.
   unfold lut_data, lut_entries.
   destruct (negb ((ld_bits l =? 8) || (ld_bits l =? 16))) eqn:B; [discriminate|].
-  destruct ((ld_bits l =? 8) && _ && ld_scalar l); [discriminate|].
   set (len := if ld_n l =? 0 then 65536 else ld_n l).
+  destruct (ld_scalar l).
+  { destruct ((ld_bits l =? 8) && existsb (fun v => 256 <=? v) (dec16 (ld_bytes l))) eqn:OV; [discriminate|].
+    destruct (zlen (dec16 (ld_bytes l)) =? len) eqn:L; [|discriminate].
+    intros H; inversion H; subst d; clear H.
+    split; [|split].
+    - intros E0. rewrite E0 in L. change (zlen []) with 0 in L. subst len.
+      destruct (ld_n l =? 0) eqn:N; lia.
+    - lia.
+    - intros W. pose proof (dec16_range (length (ld_bytes l)) (ld_bytes l) (le_n _) W) as R16.
+      destruct (ld_bits l =? 8) eqn:B8.
+      + assert (ld_bits l = 8) as -> by lia. change (2 ^ 8) with 256. cbn [andb] in OV.
+        apply existsb_false_Forall in OV.
+        rewrite Forall_forall in *. intros v Hv. specialize (OV v Hv). specialize (R16 v Hv). cbn beta in *. lia.
+      + assert (ld_bits l = 16) as -> by lia. exact R16. }
   set (data := if _ && _ && _ then removelast (ld_bytes l) else ld_bytes l).
   destruct (zlen (if ld_bits l =? 8 then data else dec16 data) =? len) eqn:L; [|discriminate].
   intros H; inversion H; subst d; clear H.
@@ -256,11 +275,6 @@ End E2E.
 (* ================================================================== *)
 (* 2. get_frame = staged pipeline, as ONE theorem                      *)
 (* ================================================================== *)
-Lemma existsb_false_Forall {A} (p : A -> bool) l : existsb p l = false -> Forall (fun x => p x = false) l.
-Proof.
-  induction l as [|a l IH]; intros H; [constructor|]. cbn [existsb] in H.
-  apply orb_false_iff in H. destruct H. constructor; auto.
-Qed.
 Lemma Forall2_map_r {A B} (P : A -> B -> Prop) (f : A -> B) xs :
   Forall (fun x => P x (f x)) xs -> Forall2 P xs (map f xs).
 Proof. induction 1; cbn [map]; constructor; auto. Qed.
